@@ -393,6 +393,7 @@ void XMLAbstractDoubleFloat::normalizeZero(XMLCh* const inData)
 	// scan the string
 	
 	bool  isValidStr = true;
+    bool  zeroSeen = false;
     XMLCh theChar;
 	while ((theChar=*srcStr++)!=0 && isValidStr)
 	{
@@ -400,7 +401,15 @@ void XMLAbstractDoubleFloat::normalizeZero(XMLCh* const inData)
 			isValidStr = false;           		// invalid char
         else if (theChar == chPeriod)           // process dot
 			dotSeen ? isValidStr = false : dotSeen = true;
+        else
+            zeroSeen = true;
 	}
+
+    // a sign followed by nothing but the dot ("+.", "-.") is not a number
+    if (isValidStr && !zeroSeen)
+    {
+        ThrowXMLwithMemMgr(NumberFormatException, XMLExcepts::XMLNUM_Inv_chars, getMemoryManager());
+    }
 
 	// need not to worry about the memory problem
 	// since either fgNegZeroString or fgPosZeroString
